@@ -7,6 +7,7 @@ import (
 	"go/token"
 	"go/types"
 	"sort"
+	"strconv"
 	"strings"
 
 	"golang.org/x/tools/go/packages"
@@ -640,6 +641,36 @@ var panicTable = map[string]string{
 	"interp.interp.getOutputStream":                 "redirect operand of Print/Printf is ILLEGAL, GREATER, APPEND or PIPE: the parser assigns PrintStmt.Redirect only from those tokens (checked below) and ILLEGAL never reaches getOutputStream",
 }
 
+// panicMsgTable: the same exemptions keyed by what the panic says rather than by the function it sits in, so
+// that moving the site into a helper does not lose the argument; a panic with another message is a new site.
+var panicMsgTable = map[string]string{
+	"ScanRegex should only be called after DIV or DIV_ASSIGN token": "lexer.Lexer.scanRegex",
+	"internal error: found %s when expecting scalar %q":             "internal/compiler.compiler.scalarInfo",
+	"internal error: found %s when expecting array %q":              "internal/compiler.compiler.arrayInfo",
+	"unexpected local variable index %d":                            "internal/compiler.disassembler.localName",
+	"unexpected local array index %d":                               "internal/compiler.disassembler.localArrayName",
+	"unexpected number of return values: %d":                        "interp.interp.callNative",
+	"unexpected argument slice: %s":                                 "interp.interp.toNative",
+	"unexpected argument type: %s":                                  "interp.interp.toNative",
+	"unexpected return slice: %s":                                   "interp.fromNative",
+	"unexpected return type: %s":                                    "interp.fromNative",
+	"unexpected redirect type %s":                                   "interp.interp.getOutputStream",
+}
+
+// panicMessage: the constant message (or format string) of a plain-message panic.
+func panicMessage(arg ast.Expr) string {
+	arg = stripParens(arg)
+	if call, ok := arg.(*ast.CallExpr); ok && len(call.Args) > 0 {
+		arg = stripParens(call.Args[0])
+	}
+	if lit, ok := arg.(*ast.BasicLit); ok && lit.Kind == token.STRING {
+		if s, err := strconv.Unquote(lit.Value); err == nil {
+			return s
+		}
+	}
+	return ""
+}
+
 var mustTable = map[string]string{
 	"interp.interp.setSpecial:regexp.MustCompile":              "only in the branch RuneCountInString(RS)==1 with len(RS)>1, i.e. RS is the valid UTF-8 encoding of one rune; QuoteMeta of a valid rune is a valid pattern (checked: the call is dominated by that comparison)",
 	"internal/compiler.compiler.regexIndex:regexp.MustCompile": "the same string was compiled successfully by regexp.Compile in parser.nextRegex (with the same AddRegexFlags wrapper) before the RegExpr node was built",
@@ -651,6 +682,37 @@ var assertTable = map[string]string{
 	"internal/compiler.compiler.expr:*VarExpr":     "split()'s second argument and array-typed call arguments are VarExpr: the parser parses split's 2nd argument as a name, and the resolver rejects a non-variable passed to an array parameter",
 	"internal/resolver.mainVisitor.Visit:*VarExpr": "split()'s second argument is parsed as a bare name by the parser",
 	"interp.interp.callNative:error":               "Out(1) is validated to be exactly the error type by checkNativeFunc",
+	"role:error<-reflect-results[1]":               "Out(1) is validated to be exactly the error type by checkNativeFunc",
+}
+
+// assertRole: names an unchecked assertion by what is asserted rather than where: the second element of a
+// []reflect.Value (the results of a reflect call) asserted to error.
+func assertRole(x *ssa.TypeAssert) string {
+	if types.TypeString(x.AssertedType, nil) != "error" {
+		return ""
+	}
+	call, ok := x.X.(*ssa.Call)
+	if !ok {
+		return ""
+	}
+	fo := calleeObj(call)
+	if fo == nil || funcFullName(fo) != "(reflect.Value).Interface" || len(call.Call.Args) != 1 {
+		return ""
+	}
+	ld, ok := call.Call.Args[0].(*ssa.UnOp)
+	if !ok || ld.Op != token.MUL {
+		return ""
+	}
+	ia, ok := ld.X.(*ssa.IndexAddr)
+	if !ok {
+		return ""
+	}
+	if is := constInts(ia.Index, 0); len(is) == 1 && is[0] == 1 {
+		if sl, ok := ia.X.Type().Underlying().(*types.Slice); ok && types.TypeString(sl.Elem(), nil) == "reflect.Value" {
+			return "role:error<-reflect-results[1]"
+		}
+	}
+	return ""
 }
 
 func panicArgClass(p *packages.Package, makers map[string]bool, arg ast.Expr) string {
@@ -799,6 +861,8 @@ func rulePanic(c *Ctx) {
 						c.ok(key, call.Pos(), "internal-error panic is unreachable: %s (R-EXH)", why)
 					} else if t, ok := panicTable[fname]; ok {
 						c.ok(key, call.Pos(), "internal-error panic tabled: %s", t)
+					} else if home, ok := panicMsgTable[panicMessage(call.Args[0])]; ok && strings.HasPrefix(home, short+".") {
+						c.ok(key, call.Pos(), "internal-error panic tabled by its message (moved out of %s): %s", home, panicTable[home])
 					} else {
 						c.bad(key, call.Pos(), "panic with a plain message in %s is not in the default clause of a switch proved exhaustive and is not tabled: if reachable it crashes the host (parse side: it is not a *PositionError, so ParseProgram re-panics)", fname)
 					}
@@ -1007,6 +1071,8 @@ func rulePanic(c *Ctx) {
 					key := "assert:" + k + ":" + tn
 					if why, ok := assertTable[k+":"+tn]; ok {
 						c.ok(key, x.Pos(), "tabled: %s", why)
+					} else if role := assertRole(x); role != "" && assertTable[role] != "" && strings.HasPrefix(k, "interp.") {
+						c.ok(key, x.Pos(), "tabled by role %s: %s", role, assertTable[role])
 					} else {
 						c.bad(key, x.Pos(), "unchecked type assertion to %s in %s panics if the dynamic type differs and is not tabled with an argument why it cannot", tn, k)
 					}
